@@ -236,11 +236,14 @@ PrimWrite ==
 
 \* the request returns: all of its commands have been flushed (WAL synced, primary written)
 HasReq(sq, r) == \E i \in 1..Len(sq) : \E k \in 1..Len(sq[i].recs) : sq[i].recs[k] \div 10 = r
+Flushing == pc \in {"tiPrep", "mid", "len", "body", "ck", "tiDone", "fsync"} \/ (pc = "prim" /\ (todo # <<>> \/ vtmp # <<>>))
+\* (the reply reaches the client thread while the loop thread may already be doing something else, e.g. a checkpoint)
 Ack ==
-  /\ mode = "run" /\ bad = "none" /\ Idle /\ req > 0 /\ req \notin acked /\ req # inflight
-  /\ ~HasReq(queue, req)
-  /\ acked' = acked \cup {req} /\ pc' = "idle" /\ cur' = <<>>
-  /\ UNCHANGED <<wal, walSync, fx, vidx, vdat, veof, unsynced, snap, todo, vtmp, tg, lastC, req, writes, mode, rtodo, crashes, ckpts, bad, inflight, queue, rots>>
+  /\ mode = "run" /\ bad = "none" /\ req > 0 /\ req \notin acked /\ req # inflight
+  /\ ~HasReq(queue, req) /\ ~(Flushing /\ HasReq(cur, req))
+  /\ (LoopMode \/ Idle)
+  /\ acked' = acked \cup {req}
+  /\ UNCHANGED <<wal, walSync, fx, vidx, vdat, veof, unsynced, snap, pc, cur, todo, vtmp, tg, lastC, req, writes, mode, rtodo, crashes, ckpts, bad, inflight, queue, rots>>
 
 (***************************************************************************)
 (* Checkpoint: TI(CKPT,PREP) ; sync() ; TI(CKPT,DONE)    (CreateCheckpoint) *)
@@ -391,7 +394,7 @@ Crash == /\ \/ (mode = "run" /\ (~Idle \/ queue # <<>> \/ lastC # 0 \/ (req > 0 
 
 \* rotation (SyncWAL, tickerPrimary branch): after the checkpoint, truncate the WAL to 0 and rewrite its status
 WalTruncate ==
-  /\ LoopMode /\ mode = "run" /\ bad = "none" /\ Idle /\ lastC = 0 /\ rots < MaxRot /\ Len(wal) > 1
+  /\ LoopMode /\ mode = "run" /\ bad = "none" /\ Idle /\ lastC = 0 /\ rots < MaxRot
   /\ wal' = <<>> /\ walSync' = 0 /\ pc' = "rotStatus" /\ cur' = <<>>
   /\ UNCHANGED <<fx, vidx, vdat, veof, unsynced, snap, todo, vtmp, tg, lastC, req, acked, writes, mode, rtodo, crashes, ckpts, bad, inflight, queue, rots>>
 StatusWrite ==
@@ -451,6 +454,10 @@ InFlightAtomic == (Quiet /\ inflight # 0 /\ inflight \notin acked) =>
 \* C03: start-up never fails on the state a crash leaves behind, and data stays readable
 StartupOk == bad = "none"
 Readable == Quiet => \A f \in VarFiles, s \in Slots : Blob(f, s).ok
+
+\* C35: whenever everything queued has been flushed and checkpointed (what a graceful shutdown establishes before
+\* the process exits) a restart finds nothing to replay, so queries return what they returned before
+CleanWhenCheckpointed == (mode = "run" /\ Idle /\ queue = <<>> /\ lastC = 0 /\ bad = "none") => ToReplay(wal) = <<>>
 
 \* C05: TG ids only grow; the WAL never holds a committed TG beyond a later checkpoint record it is not covered by
 TgMonotone == [][tg' >= tg]_vars
